@@ -2,6 +2,8 @@ import Capella.Driver.Util
 import Capella.Model.Factories
 import Capella.Gen.Effects
 import Capella.Model.RenderCache
+import Capella.Model.Introspect
+import Capella.Gen.Introspect
 namespace Capella.Driver.Factories
 open Lean Capella.Driver Capella.Effects Capella.Factories
 
@@ -80,6 +82,32 @@ def handle (op : String) (j : Json) : Except String Json := do
       | none => Json.null
       | some (fr, .ok p) => Json.mkObj [("fresh", Json.bool fr), ("err", Json.bool false), ("with", jp p)]
       | some (fr, .error e) => Json.mkObj [("fresh", Json.bool fr), ("err", Json.bool true), ("with", jp e)])).toArray)
+  | "intro.loop" =>
+    -- one representation loop of the live code over a table of attribute outcomes (C11 round 4)
+    let fn ← getStr j "fn"
+    let oracle ← getBool j "oracle"
+    let classes := Capella.Gen.Introspect.classes
+    let gots ← (← (← j.getObjVal? "vals").getArr?).toList.mapM (fun (v : Json) => do
+      match v with
+      | Json.str "attrError" => pure (Introspect.Got.attrError, ([] : List Introspect.Str))
+      | Json.str _ => pure (Introspect.Got.otherError, [])
+      | _ =>
+        let cn ← getStr v "cls"
+        let raises ← getStrList v "raises"
+        match classes.find? (fun c => c.name == cn) with
+        | some c => pure (Introspect.Got.value ⟨c, fun m => raises.contains m⟩, [])
+        | none => pure (Introspect.Got.otherError, [cn]))
+    let sites := Introspect.sitesOf Capella.Gen.Introspect.sites fn
+    pure (Json.mkObj [
+      ("completes", Json.bool (Introspect.loop oracle sites (gots.map (·.1)))),
+      ("sites", Json.num sites.length),
+      ("unknown_classes", jstrs (gots.map (·.2)).flatten)])
+  | "intro.table" =>
+    pure (Json.mkObj [
+      ("sites", Json.arr (Capella.Gen.Introspect.sites.map (fun s =>
+        Json.arr #[jstr s.fn, jstr s.attr, Json.bool s.guarded, Json.num s.conds.length])).toArray),
+      ("classes", Json.arr (Capella.Gen.Introspect.classes.map (fun c =>
+        Json.arr #[jstr c.name, jstrs c.attrs, jstrs c.defines, jstrs c.partialOn])).toArray)])
   | "table.info" =>
     pure (Json.mkObj [
       ("functions", Json.num Capella.Gen.Effects.fnNames.length),
